@@ -1,10 +1,117 @@
 (* Properties/C11.v — C11: no client input can crash a replica or leave a partial write behind.
-   This file contains only the property theorems (closed by [exact]) and non-vacuity examples. *)
-From ZV Require Import Common.Bytes Valid.Types Valid.Consts Valid.Model Valid.Proofs.
+   This file contains only the property theorems (closed by [exact]) and non-vacuity examples.
+
+   Model level of the statements: the leader side (Valid/Model.v [handle]) is the validation every
+   registered write command passes before it is proposed; the apply side ([apply_shape]) is
+   ApplyRaftRequest + the registered internal handler up to the call of the store function
+   (which cmd.Args[i] are indexed, what is parsed, in evaluation order); the batch side
+   (Valid/Batch.v) is the shared write batch of the apply loop with abstract handlers.
+   The registration table [reg_table] and the list [toomuch_sites] are generated from the source.
+
+   C11_full (not proved as a whole): for every byte vector and every prior state the real handlers
+   neither panic nor change state on error. What is proved is its restriction to the modelled
+   layers; panics and partial writes INSIDE the rockredis store functions are covered by the
+   correspondence run and the direct oracle only (see the manifest). *)
+From ZV Require Import Common.Bytes Valid.Types Valid.Consts Valid.Model Valid.Proofs Valid.Batch Valid.BatchProofs.
+From Coq Require Import List.
+Import ListNotations.
+Open Scope gname_scope.
 Open Scope N_scope.
 
-(* A1: every redis request with fewer than two arguments panics in ApplyRaftRequest (cmd.Args[1]),
-   whatever the command: the leader must never let one through. *)
+Definition C11_full : Prop :=
+  forall (pf : bytes -> option N) (ns : bytes) (args : list bytes) (f : fact) (a : list bytes),
+    proposed pf ns args f = Some a ->
+    (* the apply handler, including the store function it calls, neither panics nor, when it answers
+       with an error, changes the committed state or leaves writes in the shared batch *)
+    apply_shape pf false a <> APanic.
+
+(* (1)+(2) validated_implies_safe, over the WHOLE generated registration table: whatever a leader
+   accepts and proposes — for every registered write / merged-write command, all argument vectors,
+   all pre-read facts and any float parser — is applied without a Go panic in ApplyRaftRequest and
+   in the registered internal handler. [table_ok] inside the proof is re-computed whenever the table
+   is regenerated from node/node_cmd_reg.go. *)
+Theorem C11_validated_implies_safe_partial : forall pf ns args f a,
+  proposed pf ns args f = Some a -> apply_shape pf false a <> APanic.
+Proof. exact validated_implies_safe. Qed.
+Print Assumptions C11_validated_implies_safe_partial.
+
+(* the per-entry check the theorem rests on, stated on its own: every write entry of the table has a
+   known wrapper whose accepted argument counts satisfy the needs of the apply handler of the same name *)
+Theorem C11_table_checked : forallb entry_ok reg_table = true.
+Proof. exact table_ok. Qed.
+Print Assumptions C11_table_checked.
+
+(* A1: ApplyRaftRequest indexes cmd.Args[1] before dispatch, so a request with fewer than two
+   arguments panics there whatever the command is (the reason why (1) matters for every entry) *)
 Theorem C11_apply_needs_two_args : forall pf v2 args, (length args < 2)%nat -> apply_shape pf v2 args = APanic.
 Proof. exact apply_short_panics. Qed.
 Print Assumptions C11_apply_needs_two_args.
+
+(* the apply handlers' sufficient argument counts really are sufficient, for every method name *)
+Theorem C11_needs_sound : forall pf m a, sat (needs m) (alen a) = true -> apply_handler pf m a <> APanic.
+Proof. exact needs_sound. Qed.
+Print Assumptions C11_needs_sound.
+
+(* (3) error_is_noop, for the apply loop with abstract handlers: after a pass over any request list the
+   committed state is exactly the effect of the requests answered without an error, and the shared
+   batch is empty. Hypotheses: a batch applies its writes in order; handlers commit nothing before
+   they succeed (modelling assumption of Batch.v); errTooMuchBatchSize is raised before any write. *)
+Theorem C11_error_is_noop :
+  forall (store write key cmd : Type) (key_eqb : key -> key -> bool) (commit : list write -> store -> store)
+         (pk : cmd -> key) (batchable : cmd -> bool) (max_batch : nat) (handler : cmd -> store -> hres write),
+    (forall s, commit [] s = s) ->
+    (forall a b s, commit (a ++ b) s = commit b (commit a s)) ->
+    (forall c s ws, handler c s = HErr ETooMuchBatch ws -> ws = []) ->
+    forall s0 reqs,
+      let s := run store write key cmd key_eqb commit pk batchable max_batch handler (init store write key s0) reqs in
+      st s = apply_writes store write commit (ok_writes write (done s)) s0 /\ wb s = [] /\ batching s = false /\ pend s = [].
+Proof. exact error_is_noop. Qed.
+Print Assumptions C11_error_is_noop.
+
+Theorem C11_error_step :
+  forall (store write key cmd : Type) (key_eqb : key -> key -> bool) (commit : list write -> store -> store)
+         (pk : cmd -> key) (batchable : cmd -> bool) (max_batch : nat) (handler : cmd -> store -> hres write),
+    (forall c s ws, handler c s = HErr ETooMuchBatch ws -> ws = []) ->
+    forall s0 s id c e ws,
+      inv store write key commit s0 s ->
+      handler c (st (pre store write key cmd key_eqb commit pk batchable max_batch s c)) = HErr e ws ->
+      let s' := step store write key cmd key_eqb commit pk batchable max_batch handler s (id, c) in
+      st s' = st (pre store write key cmd key_eqb commit pk batchable max_batch s c) /\
+      In (id, None) (done s') /\
+      (wb s' = [] \/ (e = ETooMuchBatch /\ wb s' = wb (pre store write key cmd key_eqb commit pk batchable max_batch s c))).
+Proof. exact error_step. Qed.
+Print Assumptions C11_error_step.
+
+(* the hypothesis about errTooMuchBatchSize, checked on the source: at every place of package
+   rockredis where that error leaves a function (directly or from a callee) no write into a batch
+   precedes it; the list is regenerated by go/ast from rockredis/*.go *)
+Theorem C11_toomuch_before_any_write : forallb (fun s => snd s) toomuch_sites = true.
+Proof. vm_compute. reflexivity. Qed.
+Print Assumptions C11_toomuch_before_any_write.
+
+(* ---------- non-vacuity ---------- *)
+Definition no_float : bytes -> option N := fun _ => None.
+(* "set vns:t:k v" is accepted and proposed as [set; t:k; v] ... *)
+Example C11_ex_accept :
+  proposed no_float (B "vns") [B "set"; B "vns:t:k"; B "v"] FNone = Some [B "set"; B "t:k"; B "v"].
+Proof. vm_compute. reflexivity. Qed.
+(* ... "set vns:t:k" is rejected, and it would panic if it were applied: the theorem is not vacuous *)
+Example C11_ex_reject :
+  proposed no_float (B "vns") [B "set"; B "vns:t:k"] FNone = None /\
+  apply_shape no_float false [B "set"; B "t:k"] = APanic /\
+  apply_shape no_float false [B "zadd"; B "t:z"; B "1"] = AErr.
+Proof. vm_compute. repeat split. Qed.
+(* the table has write entries and none of them is unknown *)
+Example C11_ex_table :
+  Nat.leb 50 (length (filter (fun r => kind_eqb (r_kind r) KWrite) reg_table)) = true /\
+  forallb (fun r => negb (gname_eqb (r_wrap r) "unknown")) reg_table = true.
+Proof. vm_compute. split; reflexivity. Qed.
+(* a run of the batch model with a dirty error (aborts the batch, dropping a batched request), a
+   clean errTooMuchBatchSize and successes: only the successful, answered requests take effect *)
+Definition ex_handler (c : nat) (_ : list nat) : hres nat :=
+  match c with 0%nat => HErr EOther [7%nat] | 1%nat => HErr ETooMuchBatch [] | _ => HOk [c] end.
+Example C11_ex_batch :
+  let s := run (list nat) nat nat nat Nat.eqb (fun ws s => s ++ ws) (fun c => c) Nat.even 10 ex_handler
+               (init (list nat) nat nat []) [(1, 2); (2, 0); (3, 4); (4, 1); (5, 3)]%nat in
+  st s = [4; 3]%nat /\ map fst (filter (fun d => match snd d with None => true | _ => false end) (done s)) = [2; 1; 4]%nat.
+Proof. vm_compute. split; reflexivity. Qed.
